@@ -225,7 +225,7 @@ def verify_label(label):
 
 
 def get_date_type_respin(compose_id):
-    pattern = re.compile(r"(^|.*-)(?P<date>\d{8})(?P<type>\.[a-z]+)?(\.(?P<respin>\d+))?.*")
+    pattern = re.compile(r"(^|.*-)(?P<date>\d{8})(?P<type>\.[a-z]+)?(\.(?P<respin>\d+))?.*", re.DOTALL)
     match = pattern.match(compose_id)
     if not match:
         return None, None, None
@@ -295,7 +295,7 @@ class Compose(productmd.common.MetadataBase):
     def _validate_id(self):
         self._assert_type("id", list(six.string_types))
         self._assert_not_blank("id")
-        self._assert_matches_re("id", [r".*\d{8}(\.nightly|\.n|\.ci|\.test|\.t)?(\.\d+)?"])
+        self._assert_matches_re("id", [r"(?s).*\d{8}(\.nightly|\.n|\.ci|\.test|\.t)?(\.\d+)?"])
 
     def _validate_date(self):
         self._assert_type("date", list(six.string_types))
